@@ -158,9 +158,46 @@ fn answer<T: Serialize + DeserializeOwned + PartialEq + 'static>(sink: &mut Sink
                 // (a reader may leave members aside - the union of a layout's and a link's members reads as
                 // a layout -, but it does not invent or respell any)
                 sink.oracle(b.iter().all(|x| a.contains(x)), "a document read and written again names an artifact path or rule pattern that the document does not", op);
+                // ... and no number is written that the document does not hold at that place
+                let mut nums = vec![];
+                number_leaves(&j, &mut vec![], &mut nums);
+                for (path, n) in nums {
+                    let mut cur = Some(doc);
+                    for seg in &path {
+                        cur = match cur {
+                            Some(Value::Object(m)) => m.get(seg),
+                            Some(Value::Array(xs)) => seg.strip_prefix('#').and_then(|i| i.parse::<usize>().ok()).and_then(|i| xs.get(i)),
+                            _ => None,
+                        };
+                    }
+                    if let Some(Value::Number(orig)) = cur {
+                        sink.oracle(*orig == n, &format!("a number of an accepted document is written back as another number ({} -> {})", orig, n), op);
+                    }
+                }
                 format!("ok {}", proto(&j, &mut None))
             }
         },
+    }
+}
+
+fn number_leaves(v: &Value, cur: &mut Vec<String>, out: &mut Vec<(Vec<String>, serde_json::Number)>) {
+    match v {
+        Value::Number(n) => out.push((cur.clone(), n.clone())),
+        Value::Object(m) => {
+            for (k, x) in m {
+                cur.push(k.clone());
+                number_leaves(x, cur, out);
+                cur.pop();
+            }
+        }
+        Value::Array(xs) => {
+            for (i, x) in xs.iter().enumerate() {
+                cur.push(format!("#{}", i));
+                number_leaves(x, cur, out);
+                cur.pop();
+            }
+        }
+        _ => {}
     }
 }
 
